@@ -851,6 +851,23 @@ def normalise(t):
                     return tuple(sa(w) for w in z)
                 return z
             return normalise(("if", ("iflet", t[1][1], ("call", "Chars.peek", it)), ("if", cond, sa(t[2]), t[3]), t[3]))
+    if h == "if" and len(t) == 4 and _is(t[1], "iflet") and len(t[1]) == 3 and _is(t[1][2], "bindopt") and len(t[1][2]) == 4 and _is(t[1][2][2], "bind") \
+            and _is(t[1][1], "pvar") and t[1][1][1] == "Option::Some":
+        # if let Some(b) = x.and_then(|v| f(v)) {A} else {B}  ==  if let Some(v) = x { if let Some(b) = f(v) {A} else {B} } else {B}
+        x, vb, fbody = t[1][2][1], t[1][2][2], t[1][2][3]
+        v = vb[1]
+        if v == "_f":
+            _FOLD_CTR[0] += 1
+            nv = "b%d" % _FOLD_CTR[0]
+
+            def rn(z):
+                if isinstance(z, tuple):
+                    if z == ("var", "_f"):
+                        return ("var", nv)
+                    return tuple(rn(w) for w in z)
+                return z
+            fbody, v = rn(fbody), nv
+        return normalise(("if", ("iflet", ("pvar", "Option::Some", ("bind", v)), x), ("if", ("iflet", t[1][1], fbody), t[2], t[3]), t[3]))
     if h == "if" and len(t) == 4 and t[3] == ("lit", "false", "bool"):
         return normalise(("op", "and", "bool", t[1], t[2]))        # if a {b} else {false}  ==  a && b
     if h == "if" and len(t) == 4 and t[2] == ("lit", "true", "bool"):
